@@ -11,6 +11,8 @@ TARGET = os.path.join(BUILD, "target")
 NPROC = int(os.environ.get("PK_JOBS", "16"))
 
 COQ_TIMEOUT = 1500
+# harness binaries that checks also run on a non-release cargo profile (built by ./pkv setup too)
+EXTRA_PROFILES = {"ceremony": ["debug"]}
 ALLOWED_AXIOMS = {
     # standard-library axioms that may appear in Print Assumptions; each must be named in DESIGN.md §7
     # (none needed so far)
@@ -60,6 +62,7 @@ TRANSLATORS = {
     "status": ("status.py", ["passkey-types/src/ctap2/error.rs"], "theories/Wire/gen/Status.v"),
     "ctap_schema": ("ctap_schema.py", ["passkey-types/src"], "theories/Wire/gen/CtapSchema.v"),
     "webauthn_error": ("webauthn_error.py", ["passkey-client/src/lib.rs"], "theories/Wire/gen/WebauthnError.v"),
+    "json_schema": ("json_schema.py", ["passkey-types/src"], "theories/Wire/gen/JsonSchema.v"),
 }
 
 
